@@ -439,6 +439,13 @@ func (vc *FuncVC) mapKeys(mt *types.Map) (kv, kd, kl string) {
 	return
 }
 
+// dynKey is a ghost counter of calls made through function values (callbacks):
+// it only ever grows; a call through a function value makes it grow strictly.
+func (vc *FuncVC) dynKey() string {
+	vc.regKey("ghost:dyncalls", "Int")
+	return "ghost:dyncalls"
+}
+
 func (vc *FuncVC) allocKey() string {
 	vc.regKey("alloc", "Int")
 	return "alloc"
